@@ -438,7 +438,7 @@ func SpecMatch(pattern string, hasWild bool, s string) bool {
 //@   requires rs != nil && rs.e != nil
 //@   assumes predEventSubOK(rs.e) && rs.subs != nil && rs.state == stateRequested
 //@   ensures[C09,C15] nrs != nil
-//@   ensures[C01,C13] forall x *ResourceSubscription :: x == nrs && !fresh(x) && old(x.state) > stateRequested ==>
+//@   ensures[C01,C03,C13] forall x *ResourceSubscription :: x == nrs && !fresh(x) && old(x.state) > stateRequested ==>
 //@       x.version == old(x.version) && x.model == old(x.model) && x.collection == old(x.collection) && x.state == old(x.state)
 //@   ensures[C01] forall x *ResourceSubscription :: x == nrs && !fresh(x) && old(x.state) <= stateRequested && x.state != stateError ==> x.version == 0
 //@   ensures[C09,C15] nrs.state == stateError ==> nrs == rs && rs.subs == nil && rs.e.count == old(rs.e.count) - old(card(rs.subs)) &&
